@@ -1022,6 +1022,63 @@ class Exec(object):
             return z3.If(i > n, n, i)
         return self._norm(i, n)
 
+    def _known_len(self, path, t):
+        """the length of string term t when it is a literal or fixed by a pc conjunct `Length(t) == k`; else None"""
+        if z3.is_string_value(t):
+            return len(t.as_string()) if not any(ord(c) > 127 for c in t.as_string()) else None
+        for c in path.pc:
+            if z3.is_eq(c):
+                l, r = c.arg(0), c.arg(1)
+                for a_, b_ in ((l, r), (r, l)):
+                    if z3.is_int_value(b_) and a_.decl().kind() == z3.Z3_OP_SEQ_LENGTH and a_.arg(0).eq(t):
+                        return b_.as_long()
+        return None
+
+    def _concat_cut(self, path, t, lo, hi):
+        """t[lo:hi] (concrete lo >= 0, hi None or >= lo) computed on the structure of a Concat whose leading parts have
+        lengths fixed by the path condition; None when the cut does not fall on known boundaries.  Only sound rewriting:
+        the returned term equals SubString(t, lo, hi - lo) under the pc (given the whole string is long enough, which
+        holds because every part counted has a known length)."""
+        if not (z3.is_app(t) and t.decl().kind() == z3.Z3_OP_SEQ_CONCAT):
+            return None
+        parts = []
+
+        def flat(x):
+            if z3.is_app(x) and x.decl().kind() == z3.Z3_OP_SEQ_CONCAT:
+                for ch in x.children():
+                    flat(ch)
+            else:
+                parts.append(x)
+        flat(t)
+        out, pos = [], 0
+        for i, part in enumerate(parts):
+            if hi is not None and pos >= hi:
+                break
+            k = self._known_len(path, part)
+            if k is None:
+                # unknown length: only usable as "everything from here on" with the cut starting at or before pos
+                if hi is None and pos >= lo:
+                    out.extend(parts[i:])
+                    pos = None
+                    break
+                return None
+            a_, b_ = max(lo, pos), (pos + k if hi is None else min(hi, pos + k))
+            if a_ < b_:
+                if a_ == pos and b_ == pos + k:
+                    out.append(part)
+                elif z3.is_string_value(part):
+                    out.append(z3.StringVal(part.as_string()[a_ - pos:b_ - pos]))
+                else:
+                    return None
+            pos += k
+        if pos is not None and hi is not None and pos < hi:
+            return None         # ran out of parts with known length before reaching hi
+        if pos is not None and hi is None and pos < lo:
+            return None
+        if not out:
+            return z3.StringVal('')
+        return out[0] if len(out) == 1 else z3.Concat(*out)
+
     def slice_(self, path, o, lo, hi, step):
         if step is not None and not isinstance(step, VNone):
             # only concrete steps over concrete-spine sequences
@@ -1050,7 +1107,12 @@ class Exec(object):
             n = z3.Length(o.t)
             okl, cl = concrete_of(lo) if lo is not None else (True, 0)
             okh, ch = concrete_of(hi) if hi is not None else (True, None)
-            if okl and cl >= 0 and okh and (ch is None or ch >= 0):
+            cut = None
+            if isinstance(o, VStr) and okl and cl >= 0 and okh and (ch is None or ch >= cl):
+                cut = self._concat_cut(path, o.t, cl, ch)
+            if cut is not None:
+                t = cut
+            elif okl and cl >= 0 and okh and (ch is None or ch >= 0):
                 if ch is None:
                     t = z3.SubString(o.t, cl, n) if cl > 0 else o.t
                 elif ch <= cl:
@@ -1107,6 +1169,10 @@ class Exec(object):
             else:
                 inb = z3.And(i.t < n, i.t >= -n)
                 idx = z3.If(i.t < 0, i.t + n, i.t)
+            if isinstance(o, VStr) and ok and ci >= 0:
+                cut = self._concat_cut(path, o.t, ci, ci + 1)
+                if cut is not None:
+                    return [(path, VStr(cut))]
             out = []
             pt, pf = self.branch(path, inb)
             if pt is not None:
